@@ -374,6 +374,7 @@ DEFAULT_PROFILE = dict(
     p_twin_subtype_trees=0.0,
     p_sparse_namespace=0.0,
     p_shared_route_name=0.0,
+    p_alias_of_container_of_alias=0.0,
     route_alias_user_only=False,
 )
 
@@ -1052,6 +1053,21 @@ class Gen:
             if cands:
                 d0 = r.choice(cands)
                 t = ref(d0.ns, d0.name)
+        if self.p.get('p_alias_of_container_of_alias') and r.random() < self.p['p_alias_of_container_of_alias']:
+            # an alias whose source holds another alias inside a container: Map(String, A), List(A?), ...
+            cands = self.user_types(ns, ('alias',))
+            if cands:
+                d0 = r.choice(cands)
+                inner = ref(d0.ns, d0.name)
+                if r.random() < 0.3 and not self.m.is_nullable(inner):
+                    inner = inner.copy(nullable=True)
+                if r.random() < 0.6:
+                    t = T('map', args={'key': prim('String'), 'value': inner})
+                else:
+                    t = T('list', args={'item': inner, 'min_items': None, 'max_items': None})
+                if r.random() < 0.25:
+                    t = T('list', args={'item': t, 'min_items': None, 'max_items': None})
+                self.m.feature('alias_of_container_of_alias')
         anns = []
         if self.chance('p_field_ann'):
             for a in self.visible_anns(ns):
